@@ -335,6 +335,7 @@ pub fn run(ctx: &Ctx) -> i32 {
             exhaustive: Some(true),
             extra: vec![("exhaustive_scope".into(), J::s("all messages of length 0..=3; all single/double-bit and <=16-bit burst errors in a 514-byte frame"))],
             min_distinct: 1000,
+            min_counters: vec![],
         },
     )
 }
